@@ -39,6 +39,7 @@ pub fn generate(prop: &str, thorough: bool, verif_seed: u64, idx: u64) -> Value 
     match prop {
         "C16" => serde_json::to_value(scen_list::generate_c16(rs, thorough)).unwrap(),
         "C15" => serde_json::to_value(scen_list::generate_c15(rs, thorough, idx % 8 == 7)).unwrap(),
+        "C11" if idx % 5 == 4 => serde_json::to_value(crate::scen_life::generate_owner_race(rs)).unwrap(),
         "C11" => serde_json::to_value(crate::scen_life::generate(rs, thorough)).unwrap(),
         "C12" if idx % 8 == 5 => serde_json::to_value(crate::scen_conc::generate_stringbuf(rs, thorough)).unwrap(),
         "C12" => serde_json::to_value(crate::scen_conc::generate(rs, thorough, idx % 4 == 3)).unwrap(),
